@@ -42,6 +42,10 @@ def one(case, pl):
                         int01=var.get("int01", False), dist_types=var.get("dist_types", False))
     S, A, O = pomdp._gen_S, pomdp._gen_A, pomdp._gen_O          # id -> label
     order = var.get("order", "matrix-first")
+    # an observation LISTED with explicit probability 0 and possible nowhere plays the part of the
+    # never-emitted observation when the case has one
+    gh = case["pomdp"].get("obs_ghost", [])
+    never = O[gh[0]] if gh else NEVER
     bmdp = None
     if order == "belief-first":
         # derive the belief MDP and use it before any matrix view of the POMDP exists
@@ -51,16 +55,22 @@ def one(case, pl):
         for a in bmdp.actions(s0):
             bmdp.next_state_dist(s0, a)
     elif order == "dict-first":
-        pomdp.state_estimator(pomdp.initial_state_dist(), pomdp.action_list[0], NEVER)
+        pomdp.state_estimator(pomdp.initial_state_dist(), pomdp.action_list[0], never)
     else:
-        pomdp.observation_matrix, pomdp.transition_matrix
+        try:
+            pomdp.observation_matrix, pomdp.transition_matrix
+        except Exception:       # reported below, where observation_matrix is read under guard
+            pass
     sl, al, ol = list(pomdp.state_list), list(pomdp.action_list), list(pomdp.observation_list)
     sid = {l: i for i, l in enumerate(S)}       # label -> generator id
     aid = {l: i for i, l in enumerate(A)}
     oid = {l: i for i, l in enumerate(O)}
     sidx = {s: i for i, s in enumerate(sl)}     # label -> position in msdm's list
     oidx = {o: i for i, o in enumerate(ol)}
-    om = pomdp.observation_matrix
+    om = guarded(lambda: pomdp.observation_matrix)
+    if isinstance(om, dict):
+        return {"stage": "observation_matrix", "error": om["error"],
+                "observation_list": guarded(lambda: [oid[o] for o in ol])}
     res = {"state_list": [sid[s] for s in sl], "action_list": [aid[a] for a in al],
            "observation_list": [oid[o] for o in ol],
            "observation_matrix": [[[fj(x) for x in r] for r in mat] for mat in om],
@@ -116,7 +126,7 @@ def one(case, pl):
         out = {"is_absorbing": guarded(lambda: bool(bmdp.is_absorbing(btup))), "actions": []}
         for ai, a in enumerate(al):
             r = {}
-            r["est_dict"] = [guarded(lambda o=o: dict_out(pomdp.state_estimator(bdict, a, o), sidx)) for o in ol + [NEVER]]
+            r["est_dict"] = [guarded(lambda o=o: dict_out(pomdp.state_estimator(bdict, a, o), sidx)) for o in ol + [never]]
             r["est_vec"] = [guarded(lambda oi=oi: [fj(x) for x in pomdp.state_estimator_vec(bvec, ix(ai), ix(oi))]) for oi in range(len(ol))]
 
             def nag(o):
@@ -124,7 +134,7 @@ def one(case, pl):
                 if tuple(nb.states) != tuple(sl):
                     raise ValueError("next_agentstate over a different state order")
                 return [fj(x) for x in nb.probs]
-            r["next_agentstate"] = [guarded(lambda o=o: nag(o)) for o in ol + [NEVER]]
+            r["next_agentstate"] = [guarded(lambda o=o: nag(o)) for o in ol + [never]]
             r["pred_dict"] = guarded(lambda: dict_out(pomdp.predictive_observation_dist(bdict, a), oidx))
             r["pred_vec"] = guarded(lambda: [fj(x) for x in pomdp.predictive_observation_vec(bvec, ix(ai))])
 
